@@ -594,7 +594,11 @@ impl<'a> Checker<'a> {
                                     notes.push("token start > end".into());
                                 }
                                 if *cs < lin.last_item_end {
+                                    // order/overlap is C06's clause; an item that re-covers input
+                                    // already accounted for is also C09's (no progress: the lexer
+                                    // went back over reported text)
                                     push(&mut labels, Label::Loc);
+                                    push(&mut labels, Label::Count);
                                     notes.push("token overlaps the previous lexeme".into());
                                 }
                                 lin.last_item_end = *ce;
@@ -881,6 +885,36 @@ impl<'a> Checker<'a> {
                 got: "the lexer kept producing items".into(),
                 note: "caller gave up".into(),
             });
+        }
+        // C09's progress clause is reference-free, so it is still evaluated after the first
+        // divergence from REF (where lockstep checking stops): in an unforked run no token may
+        // start before the end of an earlier token (the lexer went back over reported input),
+        // and the caller must not have given up on an endless stream.
+        if let Some(d) = divergence.as_mut() {
+            if !d.labels.contains(&Label::Count) && obs.forks.len() == 1 {
+                let mut last_end = 0usize;
+                let mut regress: Option<usize> = None;
+                for (i, c) in obs.calls.iter().enumerate() {
+                    if let Item::Tok { start, end, .. } = &c.item {
+                        if start.byte < last_end && regress.is_none() {
+                            regress = Some(i);
+                        }
+                        last_end = last_end.max(end.byte);
+                    }
+                }
+                if let Some(i) = regress {
+                    d.labels.push(Label::Count);
+                    d.note = format!(
+                        "{} | later in the same run (call {}): a token starts before the end of an earlier token - the lexer went back over input it had already reported",
+                        d.note, i
+                    );
+                } else if obs.overrun {
+                    d.labels.push(Label::Count);
+                    d.note = format!("{} | later in the same run: the lexer kept producing items beyond n+1 (caller gave up)", d.note);
+                }
+                d.labels.sort();
+                d.labels.dedup();
+            }
         }
         let _ = total_bytes;
 
